@@ -33,9 +33,9 @@ type Frame struct {
 
 // Call is one client call of a round; all calls of a round are outstanding together.
 type Call struct {
-	Kind string `json:"k"`             // read write stat remove open
-	N    int    `json:"n,omitempty"`   // read/write: byte count; stat: name length; Err: text length
-	Err  bool   `json:"err,omitempty"` // the peer answers Rerror
+	Kind string `json:"k"`              // read write stat remove open
+	N    int    `json:"n,omitempty"`    // read/write: byte count; stat: name length; Err: text length
+	Err  bool   `json:"err,omitempty"`  // the peer answers Rerror
 	Fill bool   `json:"fill,omitempty"` // stat / Err: the reply frame is exactly msize bytes long
 }
 
@@ -61,8 +61,8 @@ var msizes = []uint32{64, 100, 256, 1024, 4096}
 
 const (
 	hangAfter = 20 * time.Second
-	pollEvery = 20 * time.Millisecond
-	idlePolls = 100 // consecutive polls without any activity while the transport is drained
+	pollEvery = 10 * time.Millisecond
+	idlePolls = 80 // consecutive polls without any activity while the transport is drained
 )
 
 type hangErr string
@@ -218,7 +218,11 @@ func bucket(n int) string {
 // execute wraps RunCase with journal, evidence and hang classification.
 func execute(test string, c *Case) error {
 	hx.Journal(test, c)
-	hx.Evals(2) // reference delivery + plan
+	if c.Plan.Kind == "frame" {
+		hx.Evals(1)
+	} else {
+		hx.Evals(2) // reference delivery + plan
+	}
 	record(test, c)
 	return classify(RunCase(c))
 }
@@ -228,6 +232,10 @@ func record(test string, c *Case) {
 	if err != nil {
 		return
 	}
+	recordAs(test, c, n, bounds)
+}
+
+func recordAs(test string, c *Case, n int, bounds []int) {
 	cuts := cutsOf(c.Plan, n, bounds)
 	split := splitsAFrame(cuts, n, bounds)
 	wraps := n / int(8*c.Msize)
@@ -437,7 +445,7 @@ func enumerate(t *testing.T, test string, nstreams int, mk func(k int) *Case) {
 			c.Plan = Plan{Kind: "cuts", Cuts: []int{p}}
 			hx.Journal(test, &c)
 			hx.Eval()
-			record(test, &c)
+			recordAs(test, &c, n, bounds)
 			total++
 			var err error
 			if c.Side == "client" {
